@@ -24,7 +24,7 @@ PATHS = ("law", "block", "block_valid", "stream", "read_dedisp", "dmt", "dmt_val
 
 
 def REQUIRED(tier):
-    return [f"path:{p}" for p in PATHS] + ["regime:negative_delays", "regime:foff>0", "regime:dm<0", "law_checks", "elements_compared", "regime:multi_file_input", "path:block_second_reference", "tie_sweep_dms", "exact_half_sample_ties", "law_after_stream_checks", "file_depth:4", "file_depth:1", "file_depth:8", "regime:input_header_carries_a_dm", "path:block_same_dm_twice", "regime:streamed_interior_subrange"]
+    return [f"path:{p}" for p in PATHS] + ["regime:negative_delays", "regime:foff>0", "regime:dm<0", "law_checks", "elements_compared", "regime:multi_file_input", "path:block_second_reference", "tie_sweep_dms", "exact_half_sample_ties", "law_after_stream_checks", "file_depth:4", "file_depth:1", "file_depth:8", "regime:input_header_carries_a_dm", "path:block_same_dm_twice", "regime:streamed_interior_subrange", "dmt:channel_with_samples_summing_to_zero"]
 
 
 def cases(tier, seed):
@@ -57,7 +57,7 @@ def _ref_choice(rng, hdr):
     r = rng.choice(["ch1", "max", "min", "center", "numeric"])
     if r == "numeric":
         if rng.random() < 0.3:     # a reference well outside the band (infinite frequency, or far below): every delay has the same sign
-            return float(rng.choice([2.0 * float(hdr.fmax), 1.0e6, 0.6 * float(hdr.fmin)]))
+            return float(rng.choice([2.0 * float(hdr.fmax), 1.0e6, 0.6 * float(hdr.fmin), 1.0e25]))    # 1e25 MHz: delays relative to infinite frequency
         return float(rng.uniform(hdr.fmin - 50, hdr.fmax + 50))
     return str(r)
 
@@ -376,6 +376,15 @@ def _paths(case, j, ctx):
 
     # ---- DM-time transform
     steps = int(rng.choice([1, 2, 5, 9, 65, 257], p=[0.15, 0.2, 0.2, 0.2, 0.15, 0.1]))   # fine grids: neighbouring trials differ in a few channels only
+    blk_saved, xf_saved = blk, xf
+    if j % 4 == 1 and n >= 12 and nch >= 2:
+        # baseline-subtracted data: a channel whose samples cancel exactly (sum 0) is still a channel of the sum over channels
+        xz = x.copy()
+        xz[nch // 2, :] = 0
+        xz[nch // 2, 3], xz[nch // 2, 9] = 9.0, -9.0
+        xz[0] = xz[0] - np.float32(np.round(xz[0].mean()))
+        blk, xf = FilterbankBlock(xz, hdr), xz.astype(np.float64)
+        ctx.count("dmt:channel_with_samples_summing_to_zero")
     for valid in (False, True):
         path = "dmt_valid" if valid else "dmt"
         ctx.evaluated(); ctx.count(f"path:{path}")
@@ -415,6 +424,7 @@ def _paths(case, j, ctx):
         except Exception as exc:  # noqa: BLE001
             _viol(ctx, f"{path}-raised:{type(exc).__name__}@{exc_site(exc)}", regime, fmt_exc(exc), one)
 
+    blk, xf = blk_saved, xf_saved
     # ---- (c) pulse restored to one sample; inverse
     ctx.evaluated(); ctx.count("path:pulse")
     lo, hi = max(0, -int(d.min())), n - max(0, int(d.max()))
